@@ -57,7 +57,10 @@ class PathCtx:
         # feasibility pruning is bounded by a RESOURCE limit (deterministic, independent of machine load) with a generous
         # wall-clock backstop; `unknown` counts as feasible
         self.solver.set("rlimit", self.PRUNE_RLIMIT)
-        self.solver.set("timeout", max(self.PRUNE_MS, 20000))
+        # the wall-clock limit is an emergency backstop only (10 min): with 18 checks running at once a 20 s limit was hit on a
+        # query that needs well under a second of CPU, `entails` answered "unknown -> no", the interpreter took a weaker modelling
+        # route and a proved obligation came back REFUTED - verdicts must not depend on the load of the machine
+        self.solver.set("timeout", 600000)
         for f in V.PI_FACTS:
             self.solver.add(f)
         self.pc.extend(V.PI_FACTS)
